@@ -115,6 +115,7 @@ class ScheduledFiniteThrust(ContinuousStateChangeEvent, metaclass=ABCMeta):
         self.start_time = start_time
         self.end_time = end_time
         self.agent_id = agent_id
+        self.active = False
 
     def __call__(self, time: ScenarioTime, state: ndarray):
         """When this function returns zero during integration, it interrupts the integration process.
@@ -126,7 +127,8 @@ class ScheduledFiniteThrust(ContinuousStateChangeEvent, metaclass=ABCMeta):
         _fval = self.end_time - time
         if fpe_equals(_ival, 0.0) or fpe_equals(_fval, 0.0):
             return 0.0
-        return _ival
+        # [NOTE]: While thrusting, the next zero crossing that must interrupt integration is the end of the thrust
+        return _fval if self.active else _ival
 
     def __eq__(self, other: ScheduledFiniteThrust):
         """Check for equality between maneuver events.
@@ -157,9 +159,12 @@ class ScheduledFiniteThrust(ContinuousStateChangeEvent, metaclass=ABCMeta):
         See Also:
             :meth:`.ContinuousStateChangeEvent.getStateChangeCallback()`
         """
-        if fpe_equals(self.end_time - time, 0.0):
+        # [NOTE]: The end of the thrust is located by a root finder, so it is only known to within its tolerance
+        if self.end_time - time < 1e-9:
+            self.active = False
             EventStack.pushEvent(EventRecord(f"Finite thrust ended at {time}", self.agent_id))
             return None
+        self.active = True
         EventStack.pushEvent(EventRecord(f"Finite thrust at {time}", self.agent_id))
         return self.thrust_func
 
